@@ -48,12 +48,15 @@ def awkward(world, build, G, setid):
         out += [rd("aw_n_del", n0 + 40, "20M3D27M"), rd("aw_n_ins", n0 + 100, "25M2I23M"),
                 rd("aw_n_soft", n0 + 150, "6S44M"), rd("aw_n_eqx", n0 + 200, "20=1X29="),
                 rd("aw_n_left", n0 - 20, "50M"), rd("aw_n_right", n0 + worlds.NEUTRAL_LEN - 25, "50M"),
-                rd("aw_n_delborder", n0 - 10, "8M4D42M")]
+                rd("aw_n_delborder", n0 - 10, "8M4D42M"),
+                rd("aw_n_spanning", n0 - 40, f"{worlds.NEUTRAL_LEN + 80}M")]
     if setid in (2, 3):
         out += [rd("aw_g_del", g0 + 120, "20M3D27M"), rd("aw_g_ins", g0 + 220, "25M2I23M"),
                 rd("aw_g_soft", g0 + 320, "44M6S"), rd("aw_g_eqx", g0 + 420, "10=2X38="),
                 rd("aw_g_border", border - 25, "50M"), rd("aw_g_delborder", border - 10, "8M5D37M"),
                 rd("aw_g_edge", g0 - 30, "50M")]
+        if not world.spec.pseudo:
+            out += [rd("aw_g_spanning", g0 - 40, f"{world.glen() + 80}M")]
     return out
 
 
